@@ -71,6 +71,10 @@ pub struct Field {
     pub kind: K,
 }
 
+pub fn unraw(n: &str) -> String {
+    n.trim_start_matches("r#").to_string()
+}
+
 #[derive(Clone, Debug)]
 pub struct ArgE {
     pub alias: Option<String>,
@@ -180,8 +184,16 @@ fn spec_for(d: &mut Dice, kind: K, size_pos: &[usize], size_names: &[String]) ->
 fn build(d: &mut Dice) -> GenCase {
     let (tr, attr, tr_ty) = FMT_TRAITS[d.pick(9)];
     let is_enum = d.chance(40);
-    let (named, fields) = gen_fields(d, 1, 4);
+    let (named, mut fields) = gen_fields(d, 1, 4);
     let mut labels = vec![format!("trait={tr}"), format!("kind={}", if is_enum { "enum" } else { "struct" })];
+    if named && d.chance(30) {
+        // raw-identifier field: `r#type` as binding / argument, `type` inside the literal
+        let k = d.pick(fields.len());
+        let raw = ["r#type", "r#fn", "r#match"][d.pick(3)];
+        fields[k].name = raw.to_string();
+        fields[k].member = raw.to_string();
+        labels.push("raw_identifier_field".into());
+    }
 
     // arguments: positional then named
     let np = d.weighted(&[3, 4, 3, 2]);
@@ -205,8 +217,8 @@ fn build(d: &mut Dice) -> GenCase {
     }
     let np = args.iter().filter(|a| a.alias.is_none()).count();
     let size_pos: Vec<usize> = (0..np).filter(|i| args[*i].kind == K::Size && !args[*i].bare_field).collect();
-    let size_names: Vec<String> = args.iter().filter(|a| a.kind == K::Size && !a.bare_field).filter_map(|a| a.alias.clone()).collect();
-    let aliased: Vec<String> = args.iter().filter_map(|a| a.alias.clone()).collect();
+    let size_names: Vec<String> = args.iter().filter(|a| a.kind == K::Size && !a.bare_field).filter_map(|a| a.alias.as_ref().map(|n| unraw(n))).collect();
+    let aliased: Vec<String> = args.iter().filter_map(|a| a.alias.as_ref().map(|n| unraw(n))).collect();
 
     // pieces: every argument must be used at least once
     let mut pieces: Vec<Piece> = vec![];
@@ -255,7 +267,7 @@ fn build(d: &mut Dice) -> GenCase {
             pieces.push(text(d));
         }
         let sp = spec_for(d, a.kind, &size_pos, &size_names);
-        pieces.push(Piece::Ph(Ph { arg: Arg::Name(a.alias.clone().unwrap()), spec: sp }));
+        pieces.push(Piece::Ph(Ph { arg: Arg::Name(unraw(a.alias.as_ref().unwrap())), spec: sp }));
     }
     // extra placeholders: fields by name, repeated arguments
     let extra = d.weighted(&[3, 4, 3, 2]);
@@ -267,16 +279,16 @@ fn build(d: &mut Dice) -> GenCase {
         if d.chance(70) {
             let f = &fields[d.pick(fields.len())];
             // a field named directly is the field itself; when an alias of that name exists the alias wins
-            let kind = args.iter().find(|a| a.alias.as_deref() == Some(f.name.as_str())).map_or(f.kind, |a| a.kind);
+            let kind = args.iter().find(|a| a.alias.as_ref().map(|n| unraw(n)) == Some(unraw(&f.name))).map_or(f.kind, |a| a.kind);
             let sp = spec_for(d, kind, &size_pos, &size_names);
-            pieces.push(Piece::Ph(Ph { arg: Arg::Name(f.name.clone()), spec: sp }));
+            pieces.push(Piece::Ph(Ph { arg: Arg::Name(unraw(&f.name)), spec: sp }));
             direct_fields += 1;
         } else if !args.is_empty() {
             let k = d.pick(args.len());
             let a = &args[k];
             let sp = spec_for(d, a.kind, &size_pos, &size_names);
             let arg = match &a.alias {
-                Some(n) => Arg::Name(n.clone()),
+                Some(n) => Arg::Name(unraw(n)),
                 None => Arg::Index(k),
             };
             pieces.push(Piece::Ph(Ph { arg, spec: sp }));
@@ -304,8 +316,10 @@ fn build(d: &mut Dice) -> GenCase {
     for p in &pieces {
         if let Piece::Ph(ph) = p {
             let mut add = |n: &String| {
-                if fields.iter().any(|f| &f.name == n) && !aliased.contains(n) && !named_in_lit.contains(n) {
-                    named_in_lit.push(n.clone());
+                if let Some(f) = fields.iter().find(|f| &unraw(&f.name) == n) {
+                    if !aliased.contains(n) && !named_in_lit.contains(&f.name) {
+                        named_in_lit.push(f.name.clone());
+                    }
                 }
             };
             if let Arg::Name(n) = &ph.arg {
